@@ -4,6 +4,7 @@ Verification driver: per-function obligations from contracts, modular use of cal
 from __future__ import annotations
 
 import ast
+import os
 import time
 import traceback
 from dataclasses import dataclass, field
@@ -80,6 +81,8 @@ class Verifier(QuantMixin, LoopMixin, ExprMixin, CallMixin, StmtMixin, BuiltinsM
         self.hint_classobj = {}
         self.depth = 0
         self.quant_reset()
+        self.orc_spec = {}
+        self.awaited_call = False
         self.container_elem_type = {}
         self.trace_init()
 
@@ -293,6 +296,19 @@ class Verifier(QuantMixin, LoopMixin, ExprMixin, CallMixin, StmtMixin, BuiltinsM
         finally:
             self.st.restore(cur)
 
+    def prim_seq_concat(self, e, fr):
+        a = self.to_seq_val(self.ev(e.args[0], fr))
+        b = self.to_seq_val(self.ev(e.args[1], fr))
+        t = self.alloc(builtin_class('tuple'))
+        self.set_seq(t, smt.simp(z3.Concat(self.get_seq(a), self.get_seq(b))))
+        return t
+
+    def prim_seq_same(self, e, fr):
+        """same elements (by identity) in the same order"""
+        a = self.to_seq_val(self.ev(e.args[0], fr))
+        b = self.to_seq_val(self.ev(e.args[1], fr))
+        return self.to_val_bool(self.get_seq(a) == self.get_seq(b))
+
     def prim_uf(self, e, fr):
         """uf('name', a, b, ...): uninterpreted spec predicate over values (a dependency's semantics)"""
         name = ast.literal_eval(e.args[0])
@@ -356,6 +372,11 @@ class Verifier(QuantMixin, LoopMixin, ExprMixin, CallMixin, StmtMixin, BuiltinsM
             self.bound_ref(v)
         if f == 'outcome':
             self._add_axiom(z3.Implies(inr, z3.Or(v == smt.mk_str('ret'), v == smt.mk_str('raise'))))
+        if f in ('args', 'kwargs') and smt.static_id(v) is None:
+            K = builtin_class('tuple' if f == 'args' else 'dict')
+            self.use_class(K)
+            self._add_axiom(z3.Implies(inr, z3.And(Val.is_ref(v), Val.r(v) >= 0, smt.cls_of(Val.r(v)) == K.cid)))
+            self.hint_cls.setdefault(v.get_id(), K)
         return v
 
     def prim_tlen(self, e, fr):
@@ -417,8 +438,19 @@ class Verifier(QuantMixin, LoopMixin, ExprMixin, CallMixin, StmtMixin, BuiltinsM
             return v
         if not self.branch(f(v)):
             return v
-        spec = self.oracles.get('UserMethod', {'returns': 'any', 'raises': ('Exception',)})
+        spec = self.orc_spec.get(smt.simp(v).get_id()) or self.oracles.get('UserMethod')
         return self.oracle_outcome(spec, 'await', v, self.mk_tuple([]), self.mk_dict([]))
+
+    def ev_Await(self, e, fr):
+        if isinstance(e.value, ast.Call):
+            saved = self.awaited_call
+            self.awaited_call = True
+            try:
+                v = self.ev(e.value, fr)
+            finally:
+                self.awaited_call = saved
+            return self.await_value(v, e)
+        return super().ev_Await(e, fr)
 
     def record_event(self, kind: str, fv, at, kd, outcome: str, value) -> None:
         n = self.st.ghost['tr_len']
@@ -435,6 +467,14 @@ class Verifier(QuantMixin, LoopMixin, ExprMixin, CallMixin, StmtMixin, BuiltinsM
             self.bound_ref(res)
             self._add_axiom(res != smt.ABSENT)
             self.assume_type(res, spec.get('returns', 'any'))
+            rinv = spec.get('returned_invariant')
+            if rinv:
+                cl = self.index.find(rinv)
+                self.assume_checked(self.clause_holds(cl, {cl.node.args.args[0].arg: res}))
+            self.orc_spec[res.get_id()] = spec
+            if self.awaited_call:
+                # `await f(...)`: the coroutine is consumed at once; its outcome is the call's outcome
+                self._add_axiom(z3.Not(z3.Function('is_coro', Val, z3.BoolSort())(res)))
             self.record_event(kind, fv, at, kd, 'ret', res)
             return res
         K = self.resolve_class(raises[k - 1])
@@ -681,8 +721,13 @@ class Verifier(QuantMixin, LoopMixin, ExprMixin, CallMixin, StmtMixin, BuiltinsM
             decisions = self.pending.pop()
             self.reset_path(decisions)
             self.stats['paths'] += 1
+            tp = time.time()
             rec = self.run_path(fi, ct, res)
             res.paths.append(rec)
+            if os.environ.get('PYVC_DEBUG'):
+                print(f'[path {self.stats["paths"]}] {rec.outcome} {rec.detail[:80]} dec={len(rec.decisions)} '
+                      f'pending={len(self.pending)} {time.time() - tp:.1f}s checks={self.stats["feas_checks"]} '
+                      f'hits={self.stats.get("model_hits", 0)} obl={len(self.obligations)}', flush=True)
             if rec.outcome == 'unsupported' and rec.detail not in seen_unsupported:
                 seen_unsupported.add(rec.detail)
                 res.unsupported.append(rec.detail)
